@@ -33,6 +33,8 @@ def gen_sp_case(rng, flavor):
                 have.append(s)
             elif r < 0.5 and have:
                 ops.append(['write', rng.choice(have), rng.choice(['w', 'a', 'r+']), small()])
+            elif r < 0.53 and have:
+                ops.append(['badconsume', rng.choice(have), rng.choice(['missing', 'dir', 'copyfail'])])
             elif r < 0.56 and have:
                 ops.append(['consume', rng.choice(have), small()])
             elif r < 0.8:
@@ -106,8 +108,12 @@ def _gen_case(rng, flavor=None, size=None):
             ops.append(['write', rng.choice(linked), rng.choice(['w', 'w', 'a', 'a', 'r+']), gen_data(rng)])
             clean = False
         elif r < 0.45 and linked:
-            ops.append(['consume', rng.choice(linked), gen_data(rng)] + (['exdev'] if rng.random() < 0.3 else []))
-            clean = False
+            if rng.random() < 0.3:
+                # a consumeFile that fails, the program goes on with the blob
+                ops.append(['badconsume', rng.choice(linked), rng.choice(['missing', 'missing', 'dir', 'copyfail'])])
+            else:
+                ops.append(['consume', rng.choice(linked), gen_data(rng)] + (['exdev'] if rng.random() < 0.3 else []))
+                clean = False
         elif r < 0.47 and clean and flavor == 'fs' and ncommit and rng.random() < 0.25:
             ops.append(['reopen'])
         elif r < 0.47 and clean and rng.random() < 0.4:
@@ -345,6 +351,7 @@ def run_case(case, root):
             V = dict(bytes={}, linked=set(), dirty=set(), created=set(), root=False, since_sp=set())
             sps = []                    # [(savepoint, snapshot)]
             faulted = [False]
+            nbad = [0]
             slot_oid = {}
             dupkeys = set()
             oid_hint = {}
@@ -760,6 +767,52 @@ def run_case(case, root):
                         V['linked'].add(slot)
                         V['created'].add(slot)
                         V['root'] = True
+                    elif kind == 'badconsume':
+                        # consumeFile that FAILS (the application catches the error and goes on): the blob must be
+                        # exactly what it was — committed data, or its uncommitted working copy
+                        slot = op[1]
+                        if slot not in objs or slot not in V['linked']:
+                            cnt('skip')
+                            continue
+                        import errno
+                        import ZODB.utils
+                        b = objs[slot]
+                        how = op[2]
+                        nbad[0] += 1
+                        src = os.path.join(scratch, 'nosuch%d' % nbad[0])
+                        real_rename, real_cp = os.rename, ZODB.utils.cp
+                        if how != 'missing':
+                            if how == 'dir':
+                                os.makedirs(src)                   # a directory, reached through the copy fall-back
+                            else:
+                                with open(src, 'wb') as f:
+                                    f.write(b'never to be seen')
+
+                            def rename_exdev1(a_, b_2, *aa, **kk):
+                                if a_ == src:
+                                    raise OSError(errno.EXDEV, 'Invalid cross-device link (injected)')
+                                return real_rename(a_, b_2, *aa, **kk)
+                            os.rename = rename_exdev1
+                            if how == 'copyfail':                  # the copy dies after the target was created
+                                def cp_fail(*aa, **kk):
+                                    raise OSError(errno.ENOSPC, 'No space left on device (injected)')
+                                ZODB.utils.cp = cp_fail
+                        try:
+                            try:
+                                b.consumeFile(src)
+                                bad('C13:consume-file', 'consumeFile of a %s source did not fail' % how)
+                            except Exception:
+                                cnt('badconsume:' + how)
+                        finally:
+                            os.rename, ZODB.utils.cp = real_rename, real_cp
+                            if os.path.isdir(src):
+                                os.rmdir(src)
+                            elif os.path.exists(src):
+                                os.remove(src)
+                        guard()
+                        check_disk(kind)
+                        check_own_view(kind)
+                        f = None
                     elif kind in ('write', 'consume'):
                         slot = op[1]
                         if slot not in objs or slot not in V['linked']:
